@@ -129,6 +129,18 @@ def check_join_output(s, w, res):
         if seen[pk] > 1:
             out.append(('C02', 'duplicate', 'key pair %r occurs %d times' % (pk, seen[pk])))
         if kind == 'filter':
+            if s.get('filter') == 'SizeFilter' and measure in ('JACCARD', 'COSINE', 'DICE'):
+                lt, rt = w.tokset(lv), w.tokset(rv)
+                n_, m_ = len(lt), len(rt)
+                if n_ and m_:
+                    best = ref.raw_score(measure, n_, m_, min(n_, m_))
+                    if best + 1e-4 + 1e-9 < s['threshold']:
+                        out.append(('C14', 'size-tight', 'SizeFilter lists pair %r with token counts (%d,%d): '
+                                    'best attainable %s is %r, more than 1e-4 below the threshold %r'
+                                    % (pk, n_, m_, measure, best, s['threshold'])))
+                elif n_ or m_:
+                    out.append(('C14', 'size-tight', 'SizeFilter lists pair %r with exactly one empty side'
+                                % (pk,)))
             if s.get('filter') in ('PrefixFilter', 'PositionFilter', 'OverlapFilter'):
                 lt, rt = w.tokset(lv), w.tokset(rv)
                 if (len(lt) or len(rt)) and ref.overlap_size(lt, rt) == 0:
